@@ -262,6 +262,12 @@ def install(I, torch):
         return t
 
     nn_init = S("torch.nn.init", {k: B(k, init_noop) for k in ("xavier_normal_", "xavier_uniform_", "kaiming_uniform_", "uniform_", "normal_", "zeros_", "ones_")})
+
+    def fans(I2, t):
+        v = t.val
+        return (v.shape[1].size() if v.rank > 1 else 1, v.shape[0].size())
+
+    nn_init.table["_calculate_fan_in_and_fan_out"] = B("_calculate_fan_in_and_fan_out", fans)
     functional = S("torch.nn.functional", {"relu": torch.table["relu"], "tanh": torch.table["tanh"]})
     nn_tbl = {"Module": Module, "Parameter": B("nn.Parameter", parameter), "ModuleList": ModuleList, "Linear": Linear, "Sequential": Sequential, "ParameterList": ParameterList, "init": nn_init, "functional": functional}
     nn_tbl.update(acts)
